@@ -12,7 +12,7 @@ CLAUSES = {
     "stage-positions-clipped": "lemma 1: the first stage samples at the particle position, every later RK stage inside [xmin + 0.01, xmax - 0.01] x [ymin + 0.01, ymax - 0.01], whatever the velocities",
 }
 BOUNDS = {
-    "quick": "global 6x6 grid, subgrids {full, [1,5,2,5]}, N in {2, 3} levels, 1 particle anywhere in the valid region (also after another particle was removed between forcing and tracking), any depth (above surface .. below bottom), stage velocities any real (any magnitude), dt = 600 s, EF/RK2/RK4",
+    "quick": "(query lemma also for a time-reversed run on the offset subgrid) global 6x6 grid, subgrids {full, [1,5,2,5]}, N in {2, 3} levels, 1 particle anywhere in the valid region (also after another particle was removed between forcing and tracking), any depth (above surface .. below bottom), stage velocities any real (any magnitude), dt = 600 s, EF/RK2/RK4",
     "thorough": "7x6 grid, 3 subgrids, N 2..4, plus scalar (nearest) sampling",
 }
 ASSUMES = ["composition of the two lemmas (stage positions are in the box; any position in the box is safe to sample) is an argument, not a machine-checked step", "field values are irrelevant for index arithmetic: the forcing file holds zeros and the velocities handed to the tracker are fresh symbols of any magnitude",
@@ -33,6 +33,9 @@ def scenarios(tier):
         for N in ((2, 3) if q else (2, 3, 4)):
             for mode in ("own", "query", "shrunk"):
                 out.append(dict(name=f"kernel-{mode}-sub{'full' if sub is None else '_'.join(map(str, sub))}-N{N}", fn="kernel", params=dict(sub=sub, N=N, L=L, M=M, mode=mode), cost=20))
+            if sub is not None and N == 2:
+                # time-reversed run (the sign flip has a code path of its own) on a subgrid with different offsets
+                out.append(dict(name=f"kernel-query-rev-sub{'_'.join(map(str, sub))}-N{N}", fn="kernel", params=dict(sub=sub, N=N, L=L, M=M, mode="query", rev=True), cost=20))
     return out
 
 
@@ -45,9 +48,11 @@ def _setup(W, p, N):
     zero_u = [[[[0] * (L - 1) for _ in range(M)] for _ in range(N)] for _ in range(2)]
     zero_v = [[[[0] * L for _ in range(M - 1)] for _ in range(N)] for _ in range(2)]
     zero_t = [[[[0] * L for _ in range(M)] for _ in range(N)] for _ in range(2)]
-    fs = romsfile.forcing_vars([T0 - romsfile.REFSEC, T0 - romsfile.REFSEC + 2 * DT], zero_u, zero_v, extra=dict(temp=zero_t))
+    rev = bool(p.get("rev"))
+    t_first = T0 - 2 * DT if rev else T0
+    fs = romsfile.forcing_vars([t_first - romsfile.REFSEC, t_first - romsfile.REFSEC + 2 * DT], zero_u, zero_v, extra=dict(temp=zero_t))
     romsfile.write(W, tmp / "ocean.nc", gs, fs)
-    timer = tk.TimeKeeper(start=W.dt(T0), stop=W.dt(T0 + 2 * DT), dt=DT)
+    timer = tk.TimeKeeper(start=W.dt(T0), stop=W.dt(T0 - 2 * DT if rev else T0 + 2 * DT), dt=DT, time_reversal=rev)
     grid = roms.Grid(filename=str(tmp / "ocean.nc"), subgrid=p["sub"])
     S = st.State(instance_variables=dict(temp=float), default_values=dict(temp=0))
     return roms, timer, grid, S, tmp
